@@ -131,6 +131,8 @@ def r12_3(ctx: Ctx):
             comps[k[2]] = pta.pts[k]
     n = 0
     own = set()
+    singles = [o for o in pta._objs.values() if (o.is_singleton_scope and o.kind in MUTABLE_KINDS) or o.kind == 'cls']
+    held_by_singletons = set(pta.reach_objs(singles)) - set(singles)
     for fld, objs in sorted(comps.items()):
         data = [o for o in objs if o.kind in DATA_KINDS]
         if not data:
@@ -149,6 +151,12 @@ def r12_3(ctx: Ctx):
         ctx.check(not bad, rid, f'Solver.{fld}', init.loc(), f'Solver.{fld} is allocated per Solver',
                   f'Solver.{fld} can hold an object that is not allocated per Solver: '
                   f'{[b.describe() for b in bad[:2]]}', key=f'{rid}::Solver.{fld}')
+        held = [o for o in data if o in held_by_singletons and o.kind in MUTABLE_KINDS]
+        ctx.check(not held, rid, f'Solver.{fld}', init.loc(),
+                  f'Solver.{fld} is not held by any process-wide object',
+                  f'the object stored in Solver.{fld} is also held by a process-wide object (module / class / '
+                  f'default-argument scope): every Solver that obtains it from there shares it with the others: '
+                  f'{[h.describe() for h in held[:2]]}', key=f'{rid}::Solver.{fld}::held-by-singleton')
         own |= set(data)
     ctx.floor(rid, 'components held by a Solver', n, 6)
     # the object graph below the components must not contain singletons either (one level of fields)
